@@ -4,7 +4,8 @@ AlignmentFilesCases.tla enumerates alignments over a few ids (one not starting w
 characters), checks OneRowPerEntry, RowsNumbered, ReadBackIsPrefix and RoundTrip on the write / read machine and prints
 the rows of both formats; every alignment is written with save_parangonada_alignment and save_alignment_for_ASAP, the
 files are tokenised independently and compared with the specified rows, and read back with load_parangonada_alignment
-and load_alignment_from_ASAP, which must return the alignment.  The rows of a Nakamura corresp file (a read-only
+and load_alignment_from_ASAP, which must return the alignment; every seventh alignment also goes through the whole
+parangonada directory (save_parangonada_csv / load_parangonada_csv: both alignments, the performed notes, the score ids).  The rows of a Nakamura corresp file (a read-only
 format here) are serialised mechanically from the specification and read with load_nakamuracorresp.
 
 Not a listed property: not registered in MANIFEST.json, prints DEVIATION lines (never VIOLATION), writes growth/G10.json."""
@@ -31,8 +32,9 @@ def norm(al):
 def main():
     common.setup_repo_path()
     import partitura.performance as P
-    from partitura.io.exportparangonada import save_parangonada_alignment, save_alignment_for_ASAP
-    from partitura.io.importparangonada import load_parangonada_alignment, load_alignment_from_ASAP
+    from partitura.io.exportparangonada import save_parangonada_alignment, save_alignment_for_ASAP, save_parangonada_csv
+    from partitura.io.importparangonada import load_parangonada_alignment, load_alignment_from_ASAP, load_parangonada_csv
+    import partitura.score as S
     from partitura.io.importnakamura import load_nakamuracorresp
     tier = common.tier()
     t0 = time.time()
@@ -45,6 +47,13 @@ def main():
     pp = P.PerformedPart(notes=[dict(id="p1", midi_pitch=60, note_on=0.5, note_off=1.0, velocity=64, track=0, channel=0),
                                 dict(id="p2", midi_pitch=62, note_on=1.5, note_off=2.0, velocity=64, track=1, channel=2)])
     wd = tlc.workdir("g10/files")
+    # a small score for the parangonada directory (ids as in the alignments)
+    spart = S.Part("P1")
+    spart.set_quarter_duration(0, 2)
+    spart.add(S.TimeSignature(4, 4), 0)
+    for k, sid in enumerate(["n1", "n12", "d1e45", "P01_n123456789-1-tied-2"]):
+        spart.add(S.Note(step="CDEF"[k], octave=4, voice=1, staff=1, id=sid), 2 * k, 2 * k + 2)
+    prev_al = None
     deviations, first = {}, {}
 
     def dev(clause, case, got, want):
@@ -71,6 +80,29 @@ def main():
                 dev("parangonada.read_back" + (".id_longer_than_20" if long_id else ""), c["al"], back, c["al"])
         except Exception as ex:
             dev("parangonada.raises", c["al"], "%s: %s" % (type(ex).__name__, str(ex)[:200]), "no exception")
+        # ---- the parangonada directory (every seventh alignment): align.csv, zalign.csv, ppart.csv, part.csv, feature.csv
+        if n % 7 == 0:
+            d = os.path.join(wd, "dir")
+            os.makedirs(d, exist_ok=True)
+            z = prev_al if (n % 14 == 0 and prev_al) else None
+            try:
+                save_parangonada_csv([dict(e) for e in al], pp, spart, outdir=d, zalign=[dict(e) for e in z] if z else None)
+                perf, al_back, zal_back, feat, sna = load_parangonada_csv(d, create_score=True)
+                if norm(al_back) != c["al"]:
+                    dev("directory.align", c["al"], norm(al_back), c["al"])
+                if norm(zal_back) != (norm(z) if z else c["al"]):
+                    dev("directory.zalign", c["al"], norm(zal_back), norm(z) if z else c["al"])
+                got_notes = [[str(x["id"]), int(x["midi_pitch"]), round(float(x["note_on"]), 4), round(float(x["note_off"]), 4), int(x["track"]), int(x["channel"]), int(x["velocity"])]
+                             for x in perf[0].notes]
+                want_notes = [[str(x["id"]), int(x["midi_pitch"]), round(float(x["note_on"]), 4), round(float(x["note_off"]), 4), int(x["track"]), int(x["channel"]), int(x["velocity"])]
+                              for x in pp.notes]
+                if got_notes != want_notes:
+                    dev("directory.performed_notes", c["al"], got_notes, want_notes)
+                if [str(x) for x in sna["id"]] != [str(x) for x in spart.note_array()["id"]] or [str(x) for x in feat["id"]] != [str(x) for x in spart.note_array()["id"]]:
+                    dev("directory.score_ids", c["al"], [list(map(str, sna["id"])), list(map(str, feat["id"]))], list(map(str, spart.note_array()["id"])))
+            except Exception as ex:
+                dev("directory.raises", c["al"], "%s: %s" % (type(ex).__name__, str(ex)[:200]), "no exception")
+        prev_al = al
         # ---- ASAP
         f = os.path.join(wd, "align.tsv")
         try:
